@@ -19,6 +19,11 @@ def main():
     a = ap.parse_args()
     from vlib import util, vgen
     prop = a.prop.upper()
+    # one run per property at a time: runs of the same check share /verif/work/<prop>
+    import fcntl
+    os.makedirs(util.WORK, exist_ok=True)
+    lock = open(os.path.join(util.WORK, ".%s.lock" % prop), "w")
+    fcntl.flock(lock, fcntl.LOCK_EX)
     try:
         if not a.no_build:
             vgen.build()
